@@ -62,7 +62,10 @@ def draw_history(seed, i, quick):
             like_oth['data_dir']: dict(cls=like_oth['cls'], file=like_oth['data_file'], seed=rs % 1000 + (0 if like_oth['data_dir'] == 'user' else 1), npts=24)}
     if like_oth['data_dir'] == 'user':
         data['user'] = dict(cls='Gauss', file='data.txt', seed=rs % 1000, npts=24)
-    segments = [dict(P=rng.choice([1, 1, 2]), program=[])]
+    segments = [dict(P=rng.choice([1, 1, 2, 3]), program=[])]
+    ipe = rng.random() < 0.35           # test_all with ignore_previous_eqns=True (needs the lower complexities)
+    topt = dict(FIT_OPTS, ignore_previous_eqns=True) if ipe else dict(FIT_OPTS)
+    other_basis = rng.choice([b for b in ('ext_maths', 'osc_maths', 'base_e_maths', 'core_maths') if b != runname])
     libs = set()
     likes_here = set()
     desc = []
@@ -71,9 +74,10 @@ def draw_history(seed, i, quick):
         return segments[-1]['program']
 
     def need_lib(rn, c):
-        if (rn, c) not in libs:
-            cur().append(['gen', dict(runname=rn, compl=c)])
-            libs.add((rn, c))
+        for cc in (range(1, c + 1) if ipe else [c]):
+            if (rn, cc) not in libs:
+                cur().append(['gen', dict(runname=rn, compl=cc)])
+                libs.add((rn, cc))
 
     def need_like(name, lk):
         if name not in likes_here:
@@ -98,19 +102,24 @@ def draw_history(seed, i, quick):
             cur().append(['gen', dict(runname=runname, compl=n)])
             libs.add((runname, n))
             desc.append('gen %s/%d (identical)' % (runname, n))
-        elif c < 0.7:
+        elif c < 0.67:
             need_lib(runname, n)
             need_like('Lobs', like_obs)
-            cur().extend(pipeline('Lobs', n))
+            cur().extend(pipeline('Lobs', n, opts=topt))
             desc.append('pipeline same likelihood')
-        elif c < 0.85:
+        elif c < 0.78:
             need_lib(runname, n)
             need_like('Loth', like_oth)
-            cur().extend(pipeline('Loth', n, opts=dict(Niter_params=[3], Nconv_params=[2])))
+            cur().extend(pipeline('Loth', n, opts=dict(topt, Niter_params=[3], Nconv_params=[2])))
             desc.append('pipeline other likelihood %s/%s' % (like_oth['cls'], like_oth['data_dir']))
+        elif c < 0.87:
+            need_lib(other_basis, n)
+            need_like('Lbas', dict(like_obs, run_name='bas', fn_set=other_basis))
+            cur().extend(pipeline('Lbas', n, opts=topt))
+            desc.append('pipeline other basis %s' % other_basis)
         else:
             if cur():
-                segments.append(dict(P=rng.choice([1, 2]), program=[]))
+                segments.append(dict(P=rng.choice([1, 2, 3]), program=[]))
                 likes_here = set()
                 desc.append('restart P=%d' % segments[-1]['P'])
     # the observed call runs in a segment with P_obs ranks
@@ -130,7 +139,7 @@ def draw_history(seed, i, quick):
         stage = rng.choice(STAGES)
         need_lib(runname, n)
         need_like('Lobs', like_obs)
-        cur().extend(pipeline('Lobs', n, upto=stage))
+        cur().extend(pipeline('Lobs', n, upto=stage, opts=topt))
         od = 'user/fitting/output/output_obs'
         pairs = [['pkg/esr/function_library/' + runname, 'snap/lib/' + runname]]
         from .jobs import STAGE_INPUTS
@@ -139,13 +148,13 @@ def draw_history(seed, i, quick):
         cur().append(['snapshot', dict(pairs=pairs)])
         cur().append(['npseed', dict(seed=npseed)])
         kw = dict(stage=stage, comp=n, like='Lobs')
-        okw = dict(FIT_OPTS) if stage == 'test_all' else {}
+        okw = dict(topt) if stage == 'test_all' else {}
         kw.update(okw)
         cur().append(['fit', kw])
         observed = dict(kind='fit', stage=stage, runname=runname, compl=n, P=P_obs, like=like_obs, npseed=npseed, kw=okw)
     segments = [s for s in segments if s['program']]
     return dict(segments=segments, observed=observed, data=data, seed=rs, run_seed=rs, policy={'kind': rng.choice(['lowest', 'uniform', 'pct'])},
-                eager=rng.choice([0.0, 0.5, 1.0]), desc=desc, nops=len(desc), npseed=0)
+                eager=rng.choice([0.0, 0.5, 1.0]), desc=desc, nops=len(desc), npseed=0, ipe=ipe)
 
 
 def main(tier, seed, budget):
@@ -153,7 +162,7 @@ def main(tier, seed, budget):
     rep = base.Reporter(PID)
     quick = tier == 'quick'
     explore_s = budget or (150 if quick else 1500)
-    stats = dict(histories=0, by_kind={}, by_len={}, ops={}, restarts=0, events=0, nontrivial=set(), fresh_worlds=0)
+    stats = dict(histories=0, by_kind={}, by_len={}, ops={}, restarts=0, events=0, nontrivial=set(), fresh_worlds=0, ipe=0)
     samples = []
     selftest = {}
     with Pool(16, hashseed=0, warm=False) as pool:
@@ -186,7 +195,7 @@ def main(tier, seed, budget):
         got = {}
         for job, out in pool.imap(st, timeout=1500):
             if out[0] == 'ok':
-                got.setdefault(job['tag'][0], []).append((out[1]['digest'], tuple(sorted((out[1].get('hashes') or {}).items())), repr(out[1]['violation'])))
+                got.setdefault(job['tag'][0], []).append((out[1]['digest'], tuple(sorted((out[1].get('hashes') or {}).items())), repr((out[1]['violation'] or {}).get('sig'))))
         bad = [k for k, v in got.items() if len(v) == 2 and v[0] != v[1]]
         selftest['same_seed_twice'] = dict(pairs=len(got), mismatches=len(bad))
         if bad:
@@ -208,6 +217,7 @@ def main(tier, seed, budget):
             r = out[1]
             o = a['observed']
             stats['histories'] += 1
+            stats['ipe'] += int(bool(a.get('ipe')))
             stats['events'] += r['steps']
             kind = 'gen' if o['kind'] == 'gen' else 'fit:' + o['stage']
             stats['by_kind'][kind] = stats['by_kind'].get(kind, 0) + 1
@@ -265,7 +275,7 @@ def main(tier, seed, budget):
              'fresh comparator world. Non-trivial = at least one earlier operation precedes the observed call; distinct by (observed call, '
              'sequence of earlier operations).',
         samples=samples, histories=stats['histories'], observed_calls=stats['by_kind'], history_lengths=stats['by_len'],
-        earlier_operations=stats['ops'], process_restarts=stats['restarts'], fresh_comparator_worlds=stats['fresh_worlds'],
+        earlier_operations=stats['ops'], histories_with_ignore_previous_eqns=stats['ipe'], process_restarts=stats['restarts'], fresh_comparator_worlds=stats['fresh_worlds'],
         seam_events=stats['events'], runs_per_hour=round(3600.0 * stats['histories'] / max(wall, 1e-9)),
         fault_kinds={'F4 history operations': sum(stats['ops'].values()), 'F4 process restarts': stats['restarts']}, selftest=selftest,
         zygote='forked from a zygote that imported third-party libraries only (no ESR code, no warm-up)',
